@@ -89,6 +89,9 @@ pub fn gen_struct(ctx: &mut Ctx, o: &FOpts) -> Option<FCase> {
                 if need_rename {
                     f.attrs.push(Instr::new("map", ded, &tgt));
                 }
+                // plain members of common library types: nothing in the generated code may depend on what the type is
+                // (seed C20-06 special-cased PhantomData members)
+                f.ty = ["i32", "PhantomData<u8>", "core::marker::PhantomData<u8>", "Option<i32>", "String", "Vec<u8>", "Box<i32>", "&'static str", "[u8; 2]", "(i32, i32)", "char", "bool", "f64", "()"][ctx.choose(14)].to_string();
             }
             1 => f.attrs.push(Instr::new("map", ded, &tgt)),
             2 => {
